@@ -23,9 +23,9 @@ RULE = (
     "item of a run?, coordinate form/beyond, mutation)."
 )
 SHARDS = {"quick": 16, "thorough": 16}
-TIMEOUT = {"quick": 300, "thorough": 3600}
+TIMEOUT = {"quick": 300, "thorough": 7200}
 MIN_EVALS = {"quick": 20000, "thorough": 400000}
-CASES = {"quick": 90, "thorough": 3000}
+CASES = {"quick": 90, "thorough": 10000}
 STEPS = {"quick": 8, "thorough": 16}
 ASSUMPTIONS = [
     "getters documented as returning copies: all of the above with default arguments (clone=False variants are documented live and excluded)",
